@@ -146,7 +146,10 @@ impl SimConnection {
             Some(Ok(stream)) => {
                 let substream_id = self.script.0.lock().handle.as_ref().expect("handle").next_substream_id();
                 let protocols = self.protocol_set.protocols_with_keep_alives();
-                let permit = self.protocol_set.try_get_permit().ok_or(Error::ConnectionClosed)?;
+                let Some(permit) = self.protocol_set.try_get_permit() else {
+                    self.protocol_set.report_connection_closed(self.peer, self.endpoint.connection_id()).await?;
+                    return Ok(true);
+                };
                 self.pending_substreams.push(Box::pin(async move {
                     match tokio::time::timeout(SUBSTREAM_OPEN_TIMEOUT, Self::accept_substream(stream, permit, substream_id, protocols)).await {
                         Ok(Ok(substream)) => Ok(substream),
@@ -461,7 +464,12 @@ impl World {
                     Call::Cancel { id } => {
                         // TcpTransport::cancel is a no-op once ConnectionOpened was emitted for the id (the manager
                         // itself calls cancel(id) right before negotiate(id) in on_connection_opened)
-                        if !self.opened[i].contains_key(&id) {
+                        if self.nodes[i].script.retract_open_result(id) {
+                            // the open result was still queued inside the transport: it is never emitted and the
+                            // half-open connection is dropped
+                            self.opened[i].remove(&id);
+                            self.nodes[i].script.0.lock().pending_io.remove(&id);
+                        } else if !self.opened[i].contains_key(&id) {
                             self.nodes[i].script.0.lock().pending_io.remove(&id);
                         }
                     }
